@@ -504,7 +504,12 @@ def oracle_findpeaks(case, out, aux):
     min_area, min_ch = fr(case["min_area"]), case["min_ch"]
     expect = [p for p in uncut if p["area"] >= min_area and sum(1 for x in p["apc"] if x != 0) >= min_ch]
     if got != expect:
-        msgs.append(f"cuts: got {len(got)} peaks, the clusters passing min_area={min_area}, min_channels={min_ch} are {len(expect)}")
+        diff = ""
+        if len(got) == len(expect):
+            k = next(i for i, (a, b) in enumerate(zip(got, expect)) if a != b)
+            diff = "; peak %d differs in %s" % (k, ",".join(f for f in expect[k] if got[k][f] != expect[k][f]))
+        msgs.append(f"cuts: got {len(got)} peaks, the clusters passing min_area={min_area}, min_channels={min_ch} are {len(expect)} "
+                    f"(fields as computed from their own hits){diff}")
     return first_failure(msgs)
 
 
@@ -1202,6 +1207,23 @@ def helper_cases(ctx):
     return sma, iof, widths, hdr
 
 
+# ----------------------------------------------------------------------------- epoch-scale times
+T0 = 1_700_000_000_000_000_137
+
+
+def shift_case(kind, case, t0=T0):
+    """the same case with every time moved by t0 (durations, dt, lengths, thresholds untouched)"""
+    c = json.loads(json.dumps(case))
+    for h in c.get("hits", []) + c.get("lone", []):
+        h[0] += t0
+    for p in c.get("peaks", []):
+        p["time"] += t0
+    for key in ("orig", "merge"):
+        if kind == "replace":
+            c[key] = [[r[0] + t0, r[1] + t0, r[2]] for r in c[key]]
+    return c
+
+
 # ----------------------------------------------------------------------------- run
 def _components(ctx):
     comps = []        # (name, kind, cases, to_op, oracle, kwargs)
@@ -1260,6 +1282,22 @@ def _components(ctx):
         rule="non-increasing / out-of-range split indices, orig_dt 0 or not dividing dt: agreement with the model only")))
     comps.append(("split_peaks/real_splitters", "splitreal", splitreal_cases(ctx), None, oracle_splitreal, dict(
         branch=lambda c, o: c["algorithm"], rule="strax.split_peaks end to end (find hits -> sum_waveform -> LocalMinimumSplitter / NaturalBreaksSplitter): tiling and area conservation, oracle only")))
+    # epoch-scale timestamps: the same inputs with every TIME shifted to a real acquisition epoch (~1.7e18 ns, beyond
+    # 2**53): exact int64 arithmetic is translation invariant (and so is the model over unbounded Int), float64 is not
+    n_ep = ctx.pick(1, 10)
+    for name, kind, cases, to_op, oracle, n in (
+            ("find_peaks", "findpeaks", fp_exh[::37] + fp_rnd, op_findpeaks, oracle_findpeaks, 1500),
+            ("sum_waveform", "sumwf", sw_good, op_sumwf, oracle_sumwf, 500),
+            ("merge_peaks", "merge", mg_good, op_merge, oracle_merge, 800),
+            ("replace_merged", "replace", rp_good[::3] + rp_bad, op_replace, oracle_replace, 600),
+            ("add_lone_hits", "lone", ln_good, op_lone, oracle_lone, 400),
+            ("split_peaks", "split", sp_good[::2] + sp_bad, op_split, oracle_split, 700),
+            ("split_peaks/real_splitters", "splitreal", None, None, oracle_splitreal, 100)):
+        if cases is None:
+            cases = next(c[2] for c in comps if c[0] == name)
+        comps.append(("epoch/" + name, kind, [shift_case(kind, c) for c in cases[:n * n_ep]], to_op, oracle, dict(
+            nontrivial=lambda c, o: True, branch=lambda c, o: o.split(" ")[0] + ("" if o.startswith("ok") else ":" + o.split(" ")[1]),
+            rule=f"the first cases of `{name}` with every hit / peak / row time shifted by T0 = {T0} (int64-safe; dt, lengths, thresholds small)")))
     sma, iof, widths, hdr = helper_cases(ctx)
     comps.append(("symmetric_moving_average", "sma", sma, op_sma, oracle_sma, dict(
         exhaustive=True, nontrivial=lambda c, o: c["w"] >= 1 and len(c["a"]) >= 2, branch=lambda c, o: "w>n" if c["w"] > len(c["a"]) else ("w=0" if c["w"] == 0 else "w<=n"),
@@ -1416,7 +1454,9 @@ ORACLES = {"findpeaks": oracle_findpeaks, "store": oracle_store, "sumwf": oracle
 
 def replay(ctx, body):
     comp = body["component"].split("/")
-    if comp[0] == "search":
+    if comp[0] in ("search", "epoch"):
+        comp = comp[1:]
+    if comp[0] == "epoch":
         comp = comp[1:]
     kind = "splitreal" if comp[-1] == "real_splitters" else KIND_OF.get(comp[0])
     if kind is None or body.get("case") is None:
